@@ -353,7 +353,7 @@ type Registration struct {
 	TokExpr ast.Expr  // the token argument
 	Fn      *FuncInfo // resolved method, nil for a function literal
 	Lit     *ast.FuncLit
-	Call    *ast.CallExpr
+	Call    ast.Node // the registering call, the keyed element of a map literal, or the indexed assignment
 	Infix   bool
 }
 
@@ -394,28 +394,172 @@ func (w *World) registrations() []Registration {
 		regMeth[f.Obj] = sig.Params().Len() == 1
 	}
 	var out []Registration
+	resolve := func(r *Registration, v ast.Expr) {
+		switch a := unparen(v).(type) {
+		case *ast.FuncLit:
+			r.Lit = a
+		case *ast.SelectorExpr:
+			if s := info.Selections[a]; s != nil && s.Kind() == types.MethodVal {
+				r.Fn = w.FuncOf(s.Obj().(*types.Func))
+			}
+		case *ast.Ident:
+			if fn, ok := info.Uses[a].(*types.Func); ok {
+				r.Fn = w.FuncOf(fn)
+			}
+		}
+	}
+	// registry fields: map[token]func of the parser struct
+	isRegistry := func(e ast.Expr) (infix, ok bool) {
+		_, fld := fieldOf(info, e)
+		if fld == nil {
+			return false, false
+		}
+		mt, isMap := fld.Type().Underlying().(*types.Map)
+		if !isMap {
+			return false, false
+		}
+		sig, isSig := mt.Elem().Underlying().(*types.Signature)
+		if !isSig {
+			return false, false
+		}
+		return sig.Params().Len() == 1, true
+	}
+	// the constant tokens a key expression stands for: a constant, or the variable of a range over a
+	// package-level slice / slice literal of constants
+	keyTokens := func(f *FuncInfo, k ast.Expr) []ast.Expr {
+		if _, ok := constString(info, k); ok {
+			return []ast.Expr{k}
+		}
+		o := objOf(info, k)
+		if o == nil {
+			return nil
+		}
+		var lit *ast.CompositeLit
+		inspectBody(f.Decl.Body, false, func(n ast.Node) bool {
+			rs, ok := n.(*ast.RangeStmt)
+			if !ok || rs.Value == nil || objOf(info, rs.Value) != o {
+				return true
+			}
+			switch x := unparen(rs.X).(type) {
+			case *ast.CompositeLit:
+				lit = x
+			case *ast.Ident:
+				if v, ok := info.Uses[x].(*types.Var); ok && v.Parent() == v.Pkg().Scope() {
+					for _, file := range p.Syntax {
+						for _, d := range file.Decls {
+							gd, ok := d.(*ast.GenDecl)
+							if !ok {
+								continue
+							}
+							for _, sp := range gd.Specs {
+								vs, ok := sp.(*ast.ValueSpec)
+								if !ok {
+									continue
+								}
+								for i, nm := range vs.Names {
+									if info.Defs[nm] == types.Object(v) && i < len(vs.Values) {
+										if cl, ok := unparen(vs.Values[i]).(*ast.CompositeLit); ok {
+											lit = cl
+										}
+									}
+								}
+							}
+						}
+					}
+					// the variable must not be written anywhere
+					for _, g := range w.Funcs("parser") {
+						inspectBody(g.Decl.Body, false, func(m ast.Node) bool {
+							if as, ok := m.(*ast.AssignStmt); ok {
+								for _, l := range as.Lhs {
+									base := unparen(l)
+									if ix, ok := base.(*ast.IndexExpr); ok {
+										base = unparen(ix.X)
+									}
+									if objOf(info, base) == types.Object(v) {
+										lit = nil
+									}
+								}
+							}
+							return true
+						})
+					}
+				}
+			}
+			return true
+		})
+		if lit == nil {
+			return nil
+		}
+		var out []ast.Expr
+		for _, e := range lit.Elts {
+			if _, ok := constString(info, e); !ok {
+				return nil
+			}
+			out = append(out, e)
+		}
+		return out
+	}
 	for _, f := range w.Funcs("parser") {
 		for _, c := range callsIn(f.Decl.Body, false) {
 			cal := calleeOf(info, c)
 			if cal == nil || !isReg[cal] || len(c.Args) != 2 {
 				continue
 			}
-			tok, _ := constString(info, c.Args[0])
-			r := Registration{Token: tok, TokExpr: c.Args[0], Call: c, Infix: regMeth[cal]}
-			switch a := unparen(c.Args[1]).(type) {
-			case *ast.FuncLit:
-				r.Lit = a
-			case *ast.SelectorExpr:
-				if s := info.Selections[a]; s != nil && s.Kind() == types.MethodVal {
-					r.Fn = w.FuncOf(s.Obj().(*types.Func))
+			for _, k := range keyTokens(f, c.Args[0]) {
+				tok, _ := constString(info, k)
+				r := Registration{Token: tok, TokExpr: k, Call: c, Infix: regMeth[cal]}
+				resolve(&r, c.Args[1])
+				out = append(out, r)
+			}
+			if len(keyTokens(f, c.Args[0])) == 0 {
+				r := Registration{TokExpr: c.Args[0], Call: c, Infix: regMeth[cal]}
+				resolve(&r, c.Args[1])
+				out = append(out, r)
+			}
+		}
+		if isReg[f.Obj] {
+			continue
+		}
+		inspectBody(f.Decl.Body, false, func(n ast.Node) bool {
+			as, ok := n.(*ast.AssignStmt)
+			if !ok || len(as.Lhs) != 1 || len(as.Rhs) != 1 {
+				return true
+			}
+			// p.registry[K] = fn
+			if ix, ok := as.Lhs[0].(*ast.IndexExpr); ok {
+				if infix, isR := isRegistry(ix.X); isR {
+					ks := keyTokens(f, ix.Index)
+					for _, k := range ks {
+						tok, _ := constString(info, k)
+						r := Registration{Token: tok, TokExpr: k, Call: as, Infix: infix}
+						resolve(&r, as.Rhs[0])
+						out = append(out, r)
+					}
+					if len(ks) == 0 {
+						r := Registration{TokExpr: ix.Index, Call: as, Infix: infix}
+						resolve(&r, as.Rhs[0])
+						out = append(out, r)
+					}
 				}
-			case *ast.Ident:
-				if fn, ok := info.Uses[a].(*types.Func); ok {
-					r.Fn = w.FuncOf(fn)
+				return true
+			}
+			// p.registry = map[...]...{K: fn, ...}
+			if infix, isR := isRegistry(as.Lhs[0]); isR {
+				if cl, ok := unparen(as.Rhs[0]).(*ast.CompositeLit); ok {
+					for _, e := range cl.Elts {
+						kv, ok := e.(*ast.KeyValueExpr)
+						if !ok {
+							continue
+						}
+						tok, _ := constString(info, kv.Key)
+						r := Registration{Token: tok, TokExpr: kv.Key, Call: kv, Infix: infix}
+						resolve(&r, kv.Value)
+						out = append(out, r)
+					}
 				}
 			}
-			out = append(out, r)
-		}
+			return true
+		})
 	}
 	return out
 }
